@@ -38,6 +38,7 @@ func Run(c *hl.Ctx, withSegs bool) error {
 	for _, s := range []string{"", "a", "a\xffb: c", "x: [1;2;3;4]\n", "x: []", "a: xx*${y}z*", "a: \\\n;", "(a -> b)[x]", "a-\n", "a- b", "a: *b${x}c*",
 		"\xff\xfea\x00", "x: |`md a ``|", "a.b -> c.d: {e}", "x: \"a\\", "a: 'b''c'", "...${x}\n...@y", "&a: b\n!&c: d", "a: [...${x}; ...@y]",
 		"a: |md\n   x\n|", "(a->b)[٣]", "(a -> b)[99999999999999999999]: x", "a: falſe", "a: Kelvin", ".a", "a..b", "a: b {c}", "a: ${x", "a: ${x}y${z}",
+		"x: |md\n    a\n  \n    b\n|\n", "x: |md\r\n    a\r\n\r\n    b\r\n|\r\n", "\"\"\"\n    a\n \n    b\n\"\"\"\n", "x: |md\n\ta\n \n\tb\n|", "x: |md\n  a\n  \n   \n b\n|",
 		"\"\"\" c \"\"\"", "a: \"\"\"x\"\"\"", "x: [suspend; null]", "...@x.d2", "a: @x.d2.y", "a -> (b -> c)", "(a -> b)c)d -> e", "(a)b) -> c)[0]"} {
 		all([]byte(s))
 		wrappers([]byte(s))
